@@ -72,7 +72,7 @@ CHECKS = {
                 "The rule's coverage of the four kinds (and that absent names are left in place) is reflected from the live code on every run "
                 "and the totality lemma re-proved. Tie: generated tables of 2-4 @move kernels (recursive subroutines with depth parameters, "
                 "closures returned and called, all four lookup kinds, absent names in live positions) compiled with arch_spec (fold on/off) and "
-                "called through Method.__call__ vs the unspecialised kernels under ArchSpecInterpreter vs the Coq model.",
+                "called through Method.__call__ vs the unspecialised kernels under ArchSpecInterpreter vs the Coq model. Which table each lookup kind is answered from - by InjectSpecRule at compile time and by the ArchSpecMethods getters at run time - is ALSO read from source on every run (harness/gen/spec_translate.py, fail-closed) and proved equal to the model's spec_lookup for every spec, kind and name (build/C06/Gen_C06_src.v).",
         "note": NOTE_COMMON + " kirin's CallGraphPass cloning and the Fold that follows injection are exercised, not verified.",
         "technique": "Coq proof by fuel induction with an injection map on values (closures) + reflected rule table + differential",
     },
